@@ -443,3 +443,97 @@ func TestCombinDims(t *testing.T) {
 		return dimsCase{dims}
 	}, checkDims)
 }
+
+// ---- permutation index maps at sizes the enumeration cannot reach -----------
+//
+// (added after seeded change C20-13: a factorial helper that is only wrong from 13! on; the
+// exhaustive check above stops at n = 10, so k >= 13 was never looked at.) For n <= 20 every
+// NumPermutations(n, k) fits in an int64, so the documented bijection can be sampled: each index
+// gives a valid k-permutation of [0, n), PermutationIndex inverts IndexToPermutation, distinct
+// indices give distinct permutations, and the two ends of the range are accepted while
+// NumPermutations(n, k) itself is rejected.
+type permBigCase struct {
+	N, K int
+	Idx  []uint64
+}
+
+func checkPermBig(c permBigCase) *vk.Failure {
+	n, k := c.N, c.K
+	if k >= 11 {
+		vk.NonTrivial("permbig", n, k)
+	}
+	vk.Sample("combin-perm-big", c)
+	np := uint64(1)
+	for i := n - k + 1; i <= n; i++ {
+		np *= uint64(i)
+	}
+	if got := combin.NumPermutations(n, k); uint64(got) != np {
+		return vk.Failf("num-permutations-big", "n=%d k=%d got %d want %d", n, k, got, np)
+	}
+	idxs := []int{0, int(np - 1)}
+	for _, u := range c.Idx {
+		idxs = append(idxs, int(u%np))
+	}
+	seen := map[string]int{}
+	for _, idx := range idxs {
+		var p []int
+		if f := vk.MustReturn("index-to-permutation-big-panics", func() { p = combin.IndexToPermutation(nil, idx, n, k) }); f != nil {
+			f.Msg += fmt.Sprintf(" (n=%d k=%d idx=%d)", n, k, idx)
+			return f
+		}
+		if len(p) != k {
+			return vk.Failf("index-to-permutation-big-len", "n=%d k=%d idx=%d %v", n, k, idx, p)
+		}
+		used := make([]bool, n)
+		for _, v := range p {
+			if v < 0 || v >= n || used[v] {
+				return vk.Failf("index-to-permutation-big-invalid", "n=%d k=%d idx=%d %v", n, k, idx, p)
+			}
+			used[v] = true
+		}
+		var back int
+		if f := vk.MustReturn("permutation-index-big-panics", func() { back = combin.PermutationIndex(p, n, k) }); f != nil {
+			f.Msg += fmt.Sprintf(" (n=%d k=%d perm=%v)", n, k, p)
+			return f
+		}
+		if back != idx {
+			return vk.Failf("permutation-index-big-roundtrip", "n=%d k=%d idx=%d -> %v -> %d", n, k, idx, p, back)
+		}
+		key := fmt.Sprint(p)
+		if o, ok := seen[key]; ok && o != idx {
+			return vk.Failf("index-to-permutation-big-not-injective", "n=%d k=%d idx %d and %d both give %v", n, k, o, idx, p)
+		}
+		seen[key] = idx
+	}
+	// n == k: the identity is the first and the reversal the last permutation (the order of
+	// Permutations, which the exhaustive check pins for small n, is lexicographic there).
+	if n == k && n > 0 {
+		id := make([]int, n)
+		rev := make([]int, n)
+		for i := range id {
+			id[i], rev[i] = i, n-1-i
+		}
+		if got := combin.PermutationIndex(id, n, k); got != 0 {
+			return vk.Failf("permutation-index-big-identity", "n=k=%d identity has index %d", n, got)
+		}
+		if got := combin.PermutationIndex(rev, n, k); uint64(got) != np-1 {
+			return vk.Failf("permutation-index-big-reversal", "n=k=%d reversal has index %d want %d", n, got, np-1)
+		}
+	}
+	if f := vk.MustPanic("index-to-permutation-big-oob", func() { combin.IndexToPermutation(nil, int(np), n, k) }); f != nil {
+		return f
+	}
+	return nil
+}
+
+func TestCombinPermBig(t *testing.T) {
+	vk.Run(t, "combin-perm-big", vk.Opts{Quick: 3000, Thorough: 60000, NoCrumb: true}, func(t *rapid.T) permBigCase {
+		n := rapid.IntRange(1, 20).Draw(t, "n")
+		k := rapid.IntRange(0, n).Draw(t, "k")
+		if rapid.Bool().Draw(t, "full") {
+			k = n
+		}
+		idx := rapid.SliceOfN(rapid.Uint64(), 1, 8).Draw(t, "idx")
+		return permBigCase{n, k, idx}
+	}, checkPermBig)
+}
